@@ -766,6 +766,13 @@ func (w *World) fieldMutations(within map[*ssa.Function]bool) map[string][]field
 						if _, fresh := fa.X.(*ssa.Alloc); fresh {
 							continue // initialisation of an object allocated in this function
 						}
+						if ia, isRow := fa.X.(*ssa.IndexAddr); isRow {
+							if al, fresh := ia.X.(*ssa.Alloc); fresh {
+								if _, isArr := localArrayLen(al); isArr {
+									continue // … of a row of an array allocated in this function (`rows := [...]T{{…}, {…}}`)
+								}
+							}
+						}
 						if w.callLocalPtr(fa.X) {
 							continue // an object living in a local variable of a caller, handed down by address
 						}
